@@ -232,10 +232,15 @@ class AbstractAst:
         else:
             try:
                 var_module = self.modules[var_type]
-                class_ = getattr(var_module, var_type)
-                var = class_()
             except KeyError:
                 raise RTAMTException('The type {} does not seem to be imported.'.format(var_type))
+            class_ = getattr(var_module, var_type, None)
+            if not isinstance(class_, type):
+                raise RTAMTException('{0} is not a class of the module it is imported from.'.format(var_type))
+            try:
+                var = class_()
+            except Exception as err:
+                raise RTAMTException('An object of type {0} cannot be created: {1}'.format(var_type, err))
         return var
 
     def declare_var(self, var_name, var_type):
@@ -279,7 +284,7 @@ class AbstractAst:
                 'The variable {0} is not declared. Setting its topic name to {1} is ignored.'.format(var_name,
                                                                                                      var_topic))
         else:
-            topic = self.var_topic_dict[var_name]
+            # (a constant is among the declared names but has no topic entry of its own yet)
             self.var_topic_dict[var_name] = var_topic
 
     def set_var_io_type(self, var_name, var_iotype):
